@@ -59,3 +59,25 @@ func C08Lists(mod module.Module) (oversign, sign []string) {
 	m := mod.(*Modifier)
 	return append([]string{}, m.oversignHeader...), append([]string{}, m.signHeader...)
 }
+
+// c08NamedSigner reports under which entry of the signers map the key that signs was found.
+type c08NamedSigner struct {
+	inner crypto.Signer
+	name  string
+	rec   func(entry string)
+}
+
+func (s c08NamedSigner) Public() crypto.PublicKey { return s.inner.Public() }
+func (s c08NamedSigner) Sign(rand io.Reader, digest []byte, opts crypto.SignerOpts) ([]byte, error) {
+	s.rec(s.name)
+	return s.inner.Sign(rand, digest, opts)
+}
+
+// C08RecordSignerUse makes every key of the modifier report the map entry (normalised domain) it is stored under
+// whenever it signs (round 9: which key signs for which sender).
+func C08RecordSignerUse(mod module.Module, rec func(entry string)) {
+	m := mod.(*Modifier)
+	for k, s := range m.signers {
+		m.signers[k] = c08NamedSigner{inner: s, name: k, rec: rec}
+	}
+}
